@@ -19,9 +19,9 @@ type c05Case struct {
 	Decs    [6]int `json:"decs"`    // Start1, End1, ... (0 none, 1 line comment, 2 "\n", 3 block comment)
 }
 
-var c05Kinds = []string{"stmt", "decl", "spec", "field", "method", "clause", "arg", "elt"}
+var c05Kinds = []string{"stmt", "decl", "spec", "field", "method", "clause", "arg", "elt", "rawarg", "rawelt", "rawstmt"}
 
-func c05OwnLine(kind string) bool { return kind != "arg" && kind != "elt" }
+func c05OwnLine(kind string) bool { return kind != "arg" && kind != "elt" && !strings.HasPrefix(kind, "raw") }
 
 // c05Build makes the real tree and the pieces of the naive text.
 func c05Build(kind string) (file *dst.File, elems []dst.Node, open string, texts []string, term string, close string) {
@@ -94,6 +94,42 @@ func c05Build(kind string) (file *dst.File, elems []dst.Node, open string, texts
 		}
 		file.Decls = []dst.Decl{fn(sw)}
 		return file, elems, "package p\n\nfunc f() {\n\tswitch x {", texts, "", "}\n}\n"
+	case "rawarg", "rawelt", "rawstmt":
+		// elements that end in a multi-line raw string with an empty line inside
+		raws := []string{"`a\n\nb`", "`c\n\n\nd\n`", "`\n\ne`"}
+		var list []dst.Expr
+		for _, r := range raws {
+			e := &dst.BasicLit{Kind: token.STRING, Value: r}
+			list = append(list, e)
+			texts = append(texts, r)
+		}
+		switch kind {
+		case "rawarg":
+			call := &dst.CallExpr{Fun: id("f"), Args: list}
+			for _, e := range list {
+				elems = append(elems, e)
+			}
+			file.Decls = []dst.Decl{&dst.GenDecl{Tok: token.VAR, Specs: []dst.Spec{&dst.ValueSpec{Names: []*dst.Ident{id("_")}, Values: []dst.Expr{call}}}}}
+			return file, elems, "package p\n\nvar _ = f(", texts, ",", ")\n"
+		case "rawelt":
+			cl := &dst.CompositeLit{Type: &dst.ArrayType{Elt: id("string")}, Elts: list}
+			for _, e := range list {
+				elems = append(elems, e)
+			}
+			file.Decls = []dst.Decl{&dst.GenDecl{Tok: token.VAR, Specs: []dst.Spec{&dst.ValueSpec{Names: []*dst.Ident{id("_")}, Values: []dst.Expr{cl}}}}}
+			return file, elems, "package p\n\nvar _ = []string{", texts, ",", "}\n"
+		default:
+			var stmts []dst.Stmt
+			texts = nil
+			for i, e := range list {
+				st := &dst.AssignStmt{Lhs: []dst.Expr{id(names[i])}, Tok: token.ASSIGN, Rhs: []dst.Expr{e}}
+				stmts = append(stmts, st)
+				elems = append(elems, st)
+				texts = append(texts, names[i]+" = "+raws[i])
+			}
+			file.Decls = []dst.Decl{fn(stmts...)}
+			return file, elems, "package p\n\nfunc f() {", texts, ";", "}\n"
+		}
 	case "arg":
 		call := &dst.CallExpr{Fun: id("f")}
 		for _, n := range names {
@@ -170,7 +206,7 @@ func init() {
 	core.Register(&core.Prop{
 		ID:    "C05",
 		Level: "model_checking",
-		Rule: "8 list kinds (statements, declarations, specs, struct fields, interface methods, case clauses, call arguments, composite elements) x all 3^6 None/NewLine/EmptyLine assignments to Before/After of 3 elements " +
+		Rule: "11 list kinds (statements, declarations, specs, struct fields, interface methods, case clauses, call arguments, composite elements, and arguments / elements / statements ending in multi-line raw strings that contain empty lines) x all 3^6 None/NewLine/EmptyLine assignments to Before/After of 3 elements " +
 			"x every assignment of {none, line comment, newline, block comment} to the 6 Start/End points with <=2 (quick) / <=3 (thorough) non-empty, on hand-built trees; " +
 			"oracle: print == gofmt(text rendered by the non-additive line-break ledger) and, for own-line kinds without decorations, one blank line between neighbours iff After or Before is EmptyLine; " +
 			"state = (kind, spacing vector, decoration vector); non-trivial = any spacing/decoration set",
